@@ -13,7 +13,6 @@
 #include "verif.h"
 #include "rfc1950_1952.h"
 #include "igzip_lib.h"
-#include "crc.h"
 
 #ifndef AVAIL
 #error AVAIL
@@ -24,6 +23,7 @@
 struct inputs {
         uint32_t text, time, xflags, os, hcrc, flags, extra_buf_len;
         uint32_t total_out;
+        uint32_t crc_ret[4];
         uint8_t extra[NZ(EXTRA)];
         uint8_t name[NZ(NAMEB)];
         uint8_t comment[NZ(COMMB)];
@@ -33,10 +33,12 @@ struct inputs {
 struct inputs {
         uint32_t info, level, dict_id, dict_flag;
         uint32_t total_out;
+        uint32_t crc_ret[4];
         uint8_t out0[NZ(AVAIL)];
 };
 #endif
 DECLARE_INPUTS
+#include "crc_hook.h" /* also satisfies igzip.c's reference to crc32_gzip_refl in the zlib build */
 
 static struct isal_zstream strm; /* zero-initialised; the writers use next_out/avail_out/total_out only */
 
@@ -131,15 +133,9 @@ harness(void)
         sp.comment_len = first_nul(I.comment, COMMB);
         sp.comment = I.comment;
 #endif
-        /* The header-CRC obligation is split so that CRC-32 is evaluated on the SAME bytes by both
-         * sides (two CRC evaluations over equal-but-differently-built byte expressions make an XOR
-         * miter the SAT solver cannot close - measured 150 s+ versus 7 s):
-         *   (1) every byte before the CRC16 equals the RFC layout built by the spec (has_hcrc=0 build,
-         *       with FLG.FHCRC patched in), and
-         *   (2) the CRC16 bytes are the two low bytes, LSB first, of CRC-32 over those bytes as they
-         *       stand in the output.  (1)+(2) <=> the output equals spec_gz_hdr_build(.., has_hcrc=1). */
+        /* header CRC: see crc_hook.h (crc32_gzip_refl is a recording, arbitrary-valued model) */
         sp.has_hcrc = 0;
-        uint32_t pre = spec_gz_hdr_build(expect, &sp, crc32_gzip_refl_base);
+        uint32_t pre = spec_gz_hdr_build(expect, &sp, 0);
         sp.has_hcrc = I.hcrc != 0;
         if (sp.has_hcrc)
                 expect[3] |= SPEC_GZ_FHCRC;
@@ -191,11 +187,17 @@ harness(void)
 #if defined(W_GZIP)
                 for (i = 0; i < pre; i++)
                         VASSERT(outp[i] == expect[i], "gzip header bytes == RFC 1952 layout");
+                VASSERT(!crc_hook_overflow, "crc hook capacity");
                 if (sp.has_hcrc) {
-                        uint32_t c = crc32_gzip_refl_base(0, outp, pre);
+                        VASSERT(crc_ncalls == 1 && crc_calls[0].seed == 0 && crc_calls[0].buf == outp && crc_calls[0].len == pre,
+                                "header CRC = CRC-32, seed 0, over exactly the header bytes before the CRC16");
+                        for (i = 0; i < pre; i++)
+                                VASSERT(crc_calls[0].bytes[i] == expect[i], "header CRC taken over the final header bytes");
+                        uint32_t c = crc_calls[0].ret;
                         VASSERT(outp[pre] == (uint8_t) (c & 0xff) && outp[pre + 1] == (uint8_t) ((c >> 8) & 0xff),
-                                "CRC16 = low 16 bits of CRC-32 of all preceding header bytes, LSB first");
-                }
+                                "CRC16 = two least significant bytes of that CRC-32, LSB first");
+                } else
+                        VASSERT(crc_ncalls == 0, "no header CRC computed without FHCRC");
 #else
                 VASSERT(spec_zlib_cmf_flg_ok(outp, &sp), "zlib CMF/FLG: CM=8, CINFO, FLEVEL, FDICT, (CMF*256+FLG)%31==0");
 #ifdef DICTID_ORDER
